@@ -155,7 +155,11 @@ def r_C01visitors(root):
         rep("C01.a", meth, "a single member", r[0] == "ret" and r[1] is e, "%s with one member becomes %s; documented: that member itself" % (meth, desc(r)))
     # ---------------------------------------------------------------- assignments
     ASG = {"=": ("Sequence", "__asgn_plain", M1), "+=": ("OneOrMore", "__asgn_oneormore", MP), "*=": ("ZeroOrMore", "__asgn_zeroormore", MZ), "?=": ("Optional", "__asgn_optional", MO)}
-    def rhs(name="INT"): return E("RegExMatch", rule_name=name, root=True)
+    def rhs(name="INT"):
+        # a regex match as the grammar visitor builds it under ignore_case=True (pattern, flag, compiled once)
+        e_ = E("RegExMatch", rule_name=name, root=True, to_match="[-+]?[0-9]+\\b", to_match_regex="[-+]?[0-9]+\\b", ignore_case=True, str_repr=None, compiled=1)
+        e_[".compile"] = pyeval.PyFn(lambda e_=e_: e_.__setitem__(".compiled", e_[".compiled"] + 1))
+        return e_
     def mods(v, sep=None, eol=False):
         mk = ([sep] if sep is not None else []) + (["eolterm"] if eol else [])
         r = call("visit_repeat_modifiers", v, {".kind": "node", ".position": 9}, mk)
@@ -172,6 +176,8 @@ def r_C01visitors(root):
         at = cls["._tx_attrs"].get("a")
         ok = r[0] == "ret" and isinstance(r[1], dict) and r[1].get(".kind") == kind and r[1].get(".rule_name") == rname and r[1].get(".root") is True and r[1].get(".nodes") == [r0] and r[1].get("._attr_name") == "a" \
              and at is not None and at[".mult"] == mult and bool(at[".bool_assignment"]) == (op == "?=") and isinstance(at.get(".cls"), dict) and at[".cls"].get(".cls_name") == ("BOOL" if op == "?=" else "INT") and at[".cont"] is True and at[".ref"] is False
+        okc = r0.get(".ignore_case") is True and r0.get(".compiled") == 1 and r0.get(".to_match") == "[-+]?[0-9]+\\b"
+        rep("C20.e", "visit_assignment", "a%s/regex/ keeps the case handling of its right-hand side" % op, okc, "after  a%s<regex match built under ignore_case=True>  the match has ignore_case=%r, was compiled %s time(s) and matches %r; documented: the right-hand side of an assignment is the expression as written - same pattern, same case handling, compiled once" % (op, r0.get(".ignore_case"), r0.get(".compiled"), r0.get(".to_match")), props_=("C20", "C01"))
         rep("C01.a", "visit_assignment", "a%sINT" % op, ok, "the assignment  a%sINT  becomes %s with attribute %s; documented: root %s %r over [INT] for attribute a, multiplicity %r, type %s%s" % (op, desc(r), {k_: (at[k_] if k_ != ".cls" else (at[k_] or {}).get(".cls_name")) for k_ in (".mult", ".bool_assignment", ".cls", ".cont", ".ref")} if at else None, kind, rname, mult, "BOOL" if op == "?=" else "INT", ", a bool attribute" if op == "?=" else ""), props_=("C01", "C02"))
     for op in ("=", "?="):
         v, cls = new_visitor()
